@@ -5,6 +5,7 @@
 //! H <hex>     header region (length = max(16, r8(length)); defined enums)
 //! K <n> <hex>  construct fixed-size tag number n (C07 numbering) from argument words
 //! S <hex>     16-byte basic header: accessors, verify_checksum, calc_checksum
+//! F <hex>     8-aligned image: find_header
 //! ```
 //!
 //! and answers each with the address-free transcript of "load, walk, decode
@@ -194,6 +195,43 @@ fn main() {
             let _ = out.flush();
             continue;
         };
+        if kind == "F" {
+            // F <hex>: search an 8-aligned image for the header
+            let p = g.place_padded(&bytes, 0, 0xEE);
+            let len = bytes.len();
+            let res = run_child(|| {
+                let slice = unsafe { core::slice::from_raw_parts(p as *const u8, len) };
+                let mut rec = mb2_model::transcript::Rec::new(p as usize);
+                match mb2_model::panics::catch(|| multiboot2_header::Multiboot2Header::find_header(slice)) {
+                    None => rec.t.push("r", mb2_model::Val::Panic),
+                    Some(Ok(None)) => rec.t.push("r", mb2_model::Val::None),
+                    Some(Err(e)) => rec.t.push("r", mb2_model::Val::Err(format!("{e:?}"))),
+                    Some(Ok(Some((s, idx)))) => {
+                        let v = rec.ext_raw(s.as_ptr(), s.len());
+                        rec.t.push("r", v);
+                        rec.t.push("idx", mb2_model::Val::U(idx as u64));
+                    }
+                }
+                rec.t.render().into_bytes()
+            });
+            match res {
+                ChildResult::Done(b) => {
+                    let _ = out.write_all(&b);
+                }
+                ChildResult::Signal(s) => {
+                    let _ = writeln!(out, "CRASH {}", ChildResult::signal_name(s));
+                }
+                ChildResult::Timeout => {
+                    let _ = writeln!(out, "TIMEOUT");
+                }
+                ChildResult::Broken(c) => {
+                    let _ = writeln!(out, "ERROR child {c}");
+                }
+            }
+            let _ = writeln!(out, ".");
+            let _ = out.flush();
+            continue;
+        }
         let steps = bytes.len() / 8 + 8;
         let res = match kind {
             "M" => {
